@@ -64,4 +64,11 @@ __CPROVER_ensures((0 <= h3v_g && h3v_g < numCompacted && compactedSet[h3v_g] != 
 __CPROVER_ensures((__CPROVER_return_value == S_ERR_SUCCESS && 0 <= h3v_g && h3v_g < numCompacted && compactedSet[h3v_g] != 0) ==>
                   *out >= sf_nchild(compactedSet[h3v_g], res))
 __CPROVER_ensures(__CPROVER_return_value == S_ERR_SUCCESS ==> (*out >= 0 && (numCompacted <= 0 || *out <= (numCompacted << 43))));
+/* the same function without the input-size bound: only memory safety and the arithmetic checks (KNOWN FINDING: the running sum) */
+H3Error uncompactCellsSize_any(const H3Index *compactedSet, const int64_t numCompacted, const int res, int64_t *out)
+__CPROVER_requires(numCompacted <= (((int64_t)1) << 40))
+__CPROVER_requires(__CPROVER_is_fresh(compactedSet, sizeof(H3Index) * (numCompacted > 0 ? numCompacted : 1)))
+__CPROVER_requires(__CPROVER_is_fresh(out, sizeof(int64_t)))
+__CPROVER_assigns(*out)
+__CPROVER_ensures(__CPROVER_return_value == S_ERR_SUCCESS || __CPROVER_return_value == S_ERR_RES_MISMATCH);
 #endif
